@@ -40,7 +40,7 @@ VARIANTS = {
                         "-fno-sanitize-recover=all",
                         "-fno-sanitize=object-size", "-w"]),
     # plain clang build without -march for valgrind memcheck
-    "memck": dict(cxx="clang++-14", flags=["-std=c++14", "-O1", "-g", "-w"]),
+    "memck": dict(cxx="clang++-14", flags=["-std=c++14", "-O1", "-g", "-gdwarf-4", "-w"]),   # valgrind 3.19 cannot read clang's DWARF 5
 }
 
 
@@ -113,8 +113,9 @@ def _gen_config(incdir):
 def _prune(keep):
     """keep the two most recent trees, delete the rest"""
     try:
+        import re
         ents = [e for e in os.listdir(CACHE)
-                if os.path.isdir(os.path.join(CACHE, e)) and e != keep]
+                if re.fullmatch(r"[0-9a-f]{20}", e) and os.path.isdir(os.path.join(CACHE, e)) and e != keep]
     except FileNotFoundError:
         return
     ents.sort(key=lambda e: os.path.getmtime(os.path.join(CACHE, e)), reverse=True)
